@@ -154,6 +154,8 @@ func (a *Application) executeTranslationRequest(
 		if w.Header().Get(constants.HeaderContentType) == "" {
 			a.writeTranslatorError(w, trans, pr, fmt.Errorf("proxy error: %w", proxyErr), http.StatusBadGateway)
 		}
+		// too late to tell the client, but the translator metrics must not count this as a success
+		pr.hadError = true
 	}
 
 	pr.stats.EndTime = time.Now()
@@ -370,6 +372,9 @@ func (a *Application) handleNonStreamingBackendError(
 	pr.requestLogger.Debug("Backend returned error, translating to target format",
 		"status_code", recorder.status,
 		"translator", trans.Name())
+
+	// the client is sent the backend's error status: not a success for the translator metrics
+	pr.hadError = true
 
 	errorMsg := a.extractAndLogBackendError(openaiResp, recorder.status, pr, trans)
 
@@ -620,6 +625,9 @@ func (a *Application) handleStreamingBackendError(
 	pr.requestLogger.Debug("Backend returned error in streaming mode, translating to target format",
 		"status_code", streamRecorder.status,
 		"translator", trans.Name())
+
+	// the client is sent the backend's error status: not a success for the translator metrics
+	pr.hadError = true
 
 	// Read error response from pipe
 	errorBody, _ := io.ReadAll(pipeReader)
